@@ -1,7 +1,495 @@
-(** C15 — proofs about the model of model/M_C15.v. *)
-From Coq Require Import List ZArith Bool NArith String Ascii Lia.
-From V Require Import lib.Verdict model.M_C15.
+(** C15 — the directory model of model/M_C15.v (pure Basic, pure HAMT, Dynamic with any
+    size-decision oracle, reloads at any point) meets the map specification
+    [spec_run] — the very function the correspondence check evaluates on what the
+    implementation answered. *)
+From Coq Require Import List ZArith Bool NArith String Ascii Lia Sorted Permutation.
+From V Require Import lib.Verdict model.M_C15 proofs.P_C15_bits proofs.P_C15_trie.
 Import ListNotations.
 Open Scope Z_scope.
 
-Lemma placeholder_true : True. Proof. exact I. Qed.
+Notation llen := List.length.
+
+(* ------------------------------------------------------------------ *)
+(** * strings *)
+Lemma slen_app : forall a b, String.length (a ++ b)%string = (String.length a + String.length b)%nat.
+Proof. induction a as [|ch a IH]; intros b; cbn; [reflexivity|]. rewrite IH. reflexivity. Qed.
+
+Lemma hexpad_length : forall n x, String.length (hexpad n x) = n.
+Proof.
+  induction n as [|n IH]; intros x; cbn [hexpad]; [reflexivity|].
+  rewrite slen_app, IH. cbn. lia.
+Qed.
+
+Lemma substring_all : forall s, substring 0 (String.length s) s = s.
+Proof. induction s as [|ch s IH]; cbn; [reflexivity|]. rewrite IH. reflexivity. Qed.
+
+Lemma drop_app : forall a b, drop (String.length a) (a ++ b)%string = b.
+Proof.
+  intros a b. unfold drop. rewrite slen_app.
+  replace (String.length a + String.length b - String.length a)%nat with (String.length b) by lia.
+  induction a as [|ch a IH]; cbn; [apply substring_all|exact IH].
+Qed.
+
+(* ------------------------------------------------------------------ *)
+(** * association lists with distinct keys *)
+Definition keys_nodup (l : list (name * val)) : Prop := NoDup (map fst l).
+Definition same (a b : list (name * val)) : Prop := forall x, In x a <-> In x b.
+
+Lemma bget_some_in : forall k l v, bget k l = Some v -> In (k, v) l.
+Proof.
+  intros k l. induction l as [|[g w] r IH]; intros v H; [discriminate|]. cbn [bget] in H.
+  destruct (name_eqb g k) eqn:E.
+  - apply name_eqb_eq in E. inversion H. subst. left. reflexivity.
+  - right. apply IH. exact H.
+Qed.
+
+Lemma bget_none_notin : forall k l, bget k l = None -> ~ In k (map fst l).
+Proof.
+  intros k l. induction l as [|[g w] r IH]; intros H Hin; [contradiction|]. cbn [bget] in H.
+  destruct (name_eqb g k) eqn:E; [discriminate|]. apply name_eqb_neq in E.
+  cbn in Hin. destruct Hin as [Hin|Hin]; [congruence|]. exact (IH H Hin).
+Qed.
+
+Lemma in_keys_l : forall k v (l : list (name * val)), In (k, v) l -> In k (map fst l).
+Proof. intros. apply in_map_iff. exists (k, v). split; [reflexivity|assumption]. Qed.
+
+Lemma bget_in : forall k l v, keys_nodup l -> In (k, v) l -> bget k l = Some v.
+Proof.
+  intros k l. induction l as [|[g w] r IH]; intros v Hnd Hin; [contradiction|].
+  unfold keys_nodup in Hnd. cbn [map fst] in Hnd. inversion Hnd as [|? ? Hn Hnd']. subst. cbn [bget].
+  destruct Hin as [Hin|Hin].
+  - inversion Hin. subst. rewrite name_eqb_refl. reflexivity.
+  - destruct (name_eqb g k) eqn:E.
+    + apply name_eqb_eq in E. subst g. exfalso. apply Hn. eapply in_keys_l. exact Hin.
+    + apply IH; assumption.
+Qed.
+
+Lemma in_bdel : forall k l a b, In (a, b) (bdel k l) <-> a <> k /\ In (a, b) l.
+Proof.
+  intros k l a b. unfold bdel. rewrite filter_In. cbn [fst]. split.
+  - intros [H1 H2]. split; [|exact H1]. apply negb_true_iff in H2. apply name_eqb_neq in H2. exact H2.
+  - intros [H1 H2]. split; [exact H2|]. apply negb_true_iff. apply name_eqb_neq. exact H1.
+Qed.
+
+Lemma keys_bdel : forall k l a, In a (map fst (bdel k l)) <-> a <> k /\ In a (map fst l).
+Proof.
+  intros k l a. rewrite !in_map_iff. split.
+  - intros [[x y] [E H]]. cbn in E. subst x. apply in_bdel in H. destruct H as [H1 H2].
+    split; [exact H1|]. exists (a, y). split; [reflexivity|exact H2].
+  - intros [H1 [[x y] [E H]]]. cbn in E. subst x. exists (a, y). split; [reflexivity|]. apply in_bdel. auto.
+Qed.
+
+Lemma nodup_bdel : forall k l, keys_nodup l -> keys_nodup (bdel k l).
+Proof.
+  intros k l. unfold keys_nodup. induction l as [|[g w] r IH]; intros H; [constructor|].
+  cbn [map fst] in H. inversion H as [|? ? Hn Hnd]. subst. unfold bdel. cbn [filter fst].
+  destruct (negb (name_eqb g k)); [|apply IH; exact Hnd].
+  cbn [map fst]. constructor; [|apply IH; exact Hnd].
+  intros Hin. apply keys_bdel in Hin. apply Hn. apply Hin.
+Qed.
+
+Lemma nodup_snoc : forall l k (v : val), keys_nodup l -> ~ In k (map fst l) -> keys_nodup (l ++ [(k, v)]).
+Proof.
+  intros l k v. unfold keys_nodup. induction l as [|[g w] r IH]; intros H Hn.
+  - cbn. constructor; [intros []|constructor].
+  - cbn [map fst app] in *. inversion H as [|? ? Hg Hnd]. subst. constructor.
+    + rewrite map_app, in_app_iff. cbn. intros [Hin|[E|[]]]; [contradiction|]. subst. apply Hn. left. reflexivity.
+    + apply IH; [exact Hnd|]. intros Hin. apply Hn. right. exact Hin.
+Qed.
+
+Lemma nodup_pairs : forall l, keys_nodup l -> NoDup l.
+Proof. intros l H. unfold keys_nodup in H. eapply NoDup_map_inv. exact H. Qed.
+
+Lemma same_perm : forall a b, keys_nodup a -> keys_nodup b -> same a b -> Permutation a b.
+Proof. intros a b Ha Hb Hs. apply NoDup_Permutation; [apply nodup_pairs; exact Ha|apply nodup_pairs; exact Hb|exact Hs]. Qed.
+
+Lemma same_length : forall a b, keys_nodup a -> keys_nodup b -> same a b -> llen a = llen b.
+Proof. intros. apply Permutation_length. apply same_perm; assumption. Qed.
+
+Lemma same_keys : forall a b k, same a b -> (In k (map fst a) <-> In k (map fst b)).
+Proof.
+  intros a b k Hs. rewrite !in_map_iff. split; intros [[x y] [E H]]; exists (x, y); (split; [exact E|]); apply Hs; exact H.
+Qed.
+
+Lemma bget_same : forall k a b, keys_nodup a -> keys_nodup b -> same a b -> bget k a = bget k b.
+Proof.
+  intros k a b Ha Hb Hs. destruct (bget k a) as [v|] eqn:E.
+  - symmetry. apply bget_in; [exact Hb|]. apply Hs. apply bget_some_in. exact E.
+  - destruct (bget k b) as [v|] eqn:E'; [|reflexivity].
+    exfalso. apply (bget_none_notin k a E). eapply in_keys_l. apply Hs. apply bget_some_in. exact E'.
+Qed.
+
+(** sorting the links of a node *)
+Lemma sort_ins_perm : forall p l, Permutation (sort_ins p l) (p :: l).
+Proof.
+  intros p l. induction l as [|q r IH]; cbn [sort_ins]; [reflexivity|].
+  destruct (String.ltb (fst p) (fst q)); [reflexivity|].
+  rewrite IH. apply perm_swap.
+Qed.
+
+Lemma sort_links_perm : forall l, Permutation (sort_links l) l.
+Proof.
+  induction l as [|p r IH]; [reflexivity|]. unfold sort_links. cbn [fold_right].
+  rewrite sort_ins_perm. constructor. exact IH.
+Qed.
+
+Lemma sort_links_same : forall l, same (sort_links l) l.
+Proof. intros l x. split; apply Permutation_in; [apply sort_links_perm|symmetry; apply sort_links_perm]. Qed.
+
+Lemma sort_links_nodup : forall l, keys_nodup l -> keys_nodup (sort_links l).
+Proof.
+  intros l H. unfold keys_nodup in *. eapply Permutation_NoDup; [|exact H].
+  apply Permutation_map. symmetry. apply sort_links_perm.
+Qed.
+
+(** the multiset comparison used by the specification *)
+Lemma val_eqb_eq : forall a b, val_eqb a b = true <-> a = b.
+Proof.
+  intros [a1 a2 a3] [b1 b2 b3]. unfold val_eqb. cbn. rewrite !andb_true_iff, !Z.eqb_eq. split.
+  - intros [[-> ->] ->]. reflexivity.
+  - intros H. inversion H. auto.
+Qed.
+
+Lemma entry_eqb_eq : forall a b, entry_eqb a b = true <-> a = b.
+Proof.
+  intros [a1 a2] [b1 b2]. unfold entry_eqb. cbn. rewrite andb_true_iff, name_eqb_eq, val_eqb_eq. split.
+  - intros [-> ->]. reflexivity.
+  - intros H. inversion H. auto.
+Qed.
+
+Lemma remove1_perm : forall x l, In x l -> exists l', remove1 x l = Some l' /\ Permutation l (x :: l').
+Proof.
+  intros x l. induction l as [|y r IH]; intros Hin; [contradiction|]. cbn [remove1].
+  destruct (entry_eqb x y) eqn:E.
+  - apply entry_eqb_eq in E. subst y. exists r. split; reflexivity.
+  - destruct Hin as [Hin|Hin]; [subst; rewrite (proj2 (entry_eqb_eq x x) eq_refl) in E; discriminate|].
+    destruct (IH Hin) as [l' [H1 H2]]. rewrite H1. exists (y :: l'). split; [reflexivity|].
+    rewrite H2. apply perm_swap.
+Qed.
+
+Lemma same_entries_perm : forall l1 l2, Permutation l1 l2 -> same_entries l1 l2 = true.
+Proof.
+  induction l1 as [|x r IH]; intros l2 Hp.
+  - apply Permutation_nil in Hp. subst. reflexivity.
+  - cbn [same_entries]. assert (Hin : In x l2) by (eapply Permutation_in; [exact Hp|left; reflexivity]).
+    destruct (remove1_perm x l2 Hin) as [l' [H1 H2]]. rewrite H1. apply IH.
+    eapply Permutation_cons_inv. rewrite Hp. exact H2.
+Qed.
+
+(** the map operations of the specification *)
+Lemma mput_nodup : forall k v m, keys_nodup m -> keys_nodup (mput k v m).
+Proof.
+  intros k v m H. unfold mput, keys_nodup. cbn [map fst]. constructor; [|apply nodup_bdel; exact H].
+  intros Hin. apply keys_bdel in Hin. destruct Hin as [Hne _]. congruence.
+Qed.
+
+Lemma mput_in : forall k v m a b, In (a, b) (mput k v m) <-> (a = k /\ b = v) \/ (a <> k /\ In (a, b) m).
+Proof.
+  intros. unfold mput. cbn [In]. rewrite in_bdel. split.
+  - intros [H|H]; [inversion H; left; auto|right; exact H].
+  - intros [[-> ->]|H]; [left; reflexivity|right; exact H].
+Qed.
+
+(* ------------------------------------------------------------------ *)
+(** * collisions *)
+Lemma zlist_eqb_eq : forall a b, zlist_eqb a b = true <-> a = b.
+Proof.
+  unfold zlist_eqb. induction a as [|x a IH]; intros [|y b]; cbn [list_eqb]; split; intros H; try reflexivity; try discriminate.
+  - apply andb_true_iff in H. destruct H as [H1 H2]. apply Z.eqb_eq in H1. apply IH in H2. subst. reflexivity.
+  - inversion H. subst. rewrite Z.eqb_refl. cbn. apply IH. reflexivity.
+Qed.
+
+Lemma collide_intro : forall hidx a b, a <> b -> hidx a = hidx b -> collide hidx a b = true.
+Proof.
+  intros hidx a b Hne He. unfold collide. apply andb_true_iff. split.
+  - apply negb_true_iff. apply name_eqb_neq. exact Hne.
+  - apply zlist_eqb_eq. exact He.
+Qed.
+
+Lemma has_collision_intro : forall hidx ks a b, In a ks -> In b ks -> a <> b -> hidx a = hidx b ->
+  has_collision hidx ks = true.
+Proof.
+  intros hidx ks. induction ks as [|k r IH]; intros a b Ha Hb Hne He; [contradiction|].
+  cbn [has_collision]. apply orb_true_iff.
+  destruct Ha as [Ha|Ha]; destruct Hb as [Hb|Hb].
+  - congruence.
+  - subst k. left. apply existsb_exists. exists b. split; [exact Hb|]. apply collide_intro; assumption.
+  - subst k. left. apply existsb_exists. exists a. split; [exact Ha|]. apply collide_intro; [congruence|congruence].
+  - right. exact (IH a b Ha Hb Hne He).
+Qed.
+
+Lemma has_collision_elim : forall hidx ks, has_collision hidx ks = true ->
+  exists a b, In a ks /\ In b ks /\ a <> b /\ hidx a = hidx b.
+Proof.
+  intros hidx ks. induction ks as [|x ks IHks]; intros H; [discriminate|]. cbn [has_collision] in H.
+  apply orb_true_iff in H. destruct H as [H|H].
+  - apply existsb_exists in H. destruct H as [y [Hy Hc]]. unfold collide in Hc.
+    apply andb_true_iff in Hc. destruct Hc as [Hc1 Hc2]. apply negb_true_iff in Hc1.
+    apply name_eqb_neq in Hc1. apply zlist_eqb_eq in Hc2.
+    exists x, y. split; [left; reflexivity|]. split; [right; exact Hy|]. auto.
+  - destruct (IHks H) as [a [b [Ha [Hb Hab]]]]. exists a, b. split; [right; exact Ha|]. split; [right; exact Hb|exact Hab].
+Qed.
+
+Lemma has_collision_incl : forall hidx ks ks', has_collision hidx ks = true ->
+  (forall a, In a ks -> In a ks') -> has_collision hidx ks' = true.
+Proof.
+  intros hidx ks ks' H Hsub. destruct (has_collision_elim hidx ks H) as [a [b [Ha [Hb [Hne He]]]]].
+  eapply has_collision_intro; [apply Hsub; exact Ha|apply Hsub; exact Hb|exact Hne|exact He].
+Qed.
+
+Lemma has_collision_mono : forall hidx k ks, has_collision hidx ks = true -> has_collision hidx (k :: ks) = true.
+Proof. intros. cbn [has_collision]. rewrite H. apply orb_true_r. Qed.
+
+(* ------------------------------------------------------------------ *)
+Section DirProofs.
+  Variable c : cfg.
+  Variable hidx : name -> list Z.
+  (** every digest yields the same, non-zero number of indices (64-bit digests) *)
+  Hypothesis Hlen : forall a b, llen (hidx a) = llen (hidx b).
+  Hypothesis Hpos : forall a, hidx a <> [].
+
+  Notation trie := (trie val).
+  Notation children := (children val).
+  Notation wf := (wf hidx).
+
+  (* ---------------- "too deep" only on identical index lists ---------------- *)
+  Lemma fork_none_eq : forall ik ig k v g (w : val), llen ik = llen ig ->
+    fork ik ig k v g w = None -> ik = ig.
+  Proof.
+    induction ik as [|i ik IH]; intros [|j ig] k v g w Hl Hf; try reflexivity; try discriminate.
+    cbn [fork] in Hf. destruct (i =? j) eqn:E; [|discriminate]. apply Z.eqb_eq in E. subst j.
+    destruct (fork ik ig k v g w) eqn:Ef; [discriminate|]. f_equal. eapply IH; [|exact Ef]. cbn in Hl. lia.
+  Qed.
+
+  Lemma firstn_S_nth : forall {A} d (a b : list A) x, firstn d a = firstn d b ->
+    nth_error a d = Some x -> nth_error b d = Some x -> firstn (S d) a = firstn (S d) b.
+  Proof.
+    intros A d. induction d as [|d IH]; intros a b x Hf Ha Hb.
+    - destruct a; destruct b; try discriminate. cbn in Ha, Hb. inversion Ha. inversion Hb. subst. reflexivity.
+    - destruct a as [|y a]; destruct b as [|z b]; try discriminate. cbn [firstn] in Hf. inversion Hf. subst.
+      cbn [nth_error] in Ha, Hb. change (z :: firstn (S d) a = z :: firstn (S d) b). f_equal. eapply IH; eauto.
+  Qed.
+
+  Lemma skipn_lt_nonnil : forall {A} d (l : list A), (d < llen l)%nat -> skipn d l <> [].
+  Proof.
+    intros A d. induction d as [|d IH]; intros l H.
+    - destruct l; [cbn in H; lia|discriminate].
+    - destruct l; [cbn in H; lia|]. cbn [skipn]. apply IH. cbn in H. lia.
+  Qed.
+
+  Lemma nth_some_lt : forall {A} d (l : list A) x, nth_error l d = Some x -> (d < llen l)%nat.
+  Proof. intros. apply nth_error_Some. congruence. Qed.
+
+  (** a shard below the root holds an entry, hence keys are longer than its depth *)
+  Lemma sub_shard_deeper : forall d (cs : children) k, wf d (Node cs) -> (1 <= size (Node cs))%nat -> (d < llen (hidx k))%nat.
+  Proof.
+    intros d cs k Hwf Hsz. unfold size in Hsz. destruct (walk (Node cs)) as [|[g w] r] eqn:E; [cbn in Hsz; lia|].
+    assert (Hin : In (g, w) (walk (Node cs))) by (rewrite E; left; reflexivity).
+    destruct (key_needs_index hidx d cs g w Hwf Hin) as [i Hi]. apply nth_some_lt in Hi. rewrite (Hlen k g). exact Hi.
+  Qed.
+
+  Lemma swap_toodeep : forall ix d k nv cs, wf d (Node cs) -> skipn d (hidx k) = ix ->
+    (d < llen (hidx k))%nat ->
+    (forall g w, In (g, w) (walk (Node cs)) -> firstn d (hidx g) = firstn d (hidx k)) ->
+    swap hidx ix d k nv cs = STooDeep ->
+    nv <> None /\ exists g w, In (g, w) (walk (Node cs)) /\ g <> k /\ hidx g = hidx k.
+  Proof.
+    induction ix as [|i ix IH]; intros d k nv cs Hwf Hix Hd Hpre Hsw.
+    - exfalso. exact (skipn_lt_nonnil d (hidx k) Hd Hix).
+    - pose proof (skipn_cons_nth _ _ _ _ Hix) as [Hn Hix'].
+      pose proof (proj1 (wf_node hidx d cs) Hwf) as [Hs Hall].
+      cbn [swap] in Hsw. destruct (cget i cs) as [[g w0|cs']|] eqn:Hg.
+      + pose proof (Hall i _ (cget_some_in _ _ _ Hg)) as [Hslot _].
+        assert (Hing : In (g, w0) (walk (Node cs))).
+        { apply (walk_split cs i _ _ Hs Hg). left. left. reflexivity. }
+        destruct (name_eqb g k) eqn:Egk; [destruct nv; discriminate|]. apply name_eqb_neq in Egk.
+        destruct nv as [v|]; [|discriminate].
+        destruct (fork ix (skipn (S d) (hidx g)) k v g w0) eqn:Ef; [discriminate|].
+        split; [discriminate|]. exists g, w0. split; [exact Hing|]. split; [exact Egk|].
+        assert (Hg1 : nth_error (hidx g) d = Some i) by (apply (Hslot g w0); left; reflexivity).
+        assert (Hf1 : firstn (S d) (hidx g) = firstn (S d) (hidx k)).
+        { eapply firstn_S_nth; [apply (Hpre g w0 Hing)|exact Hg1|exact Hn]. }
+        assert (Hsk : ix = skipn (S d) (hidx g)).
+        { eapply fork_none_eq; [|exact Ef]. rewrite <- Hix'. rewrite !skipn_length. rewrite (Hlen k g). reflexivity. }
+        rewrite <- (firstn_skipn (S d) (hidx g)), <- (firstn_skipn (S d) (hidx k)). rewrite Hf1, Hix', Hsk. reflexivity.
+      + pose proof (Hall i _ (cget_some_in _ _ _ Hg)) as [Hslot [Hbig Hwf']].
+        destruct (swap hidx ix (S d) k nv cs') as [old cs''| |] eqn:Esw.
+        * destruct nv; [discriminate|]. destruct cs'' as [|[j [g1 w1|csu]] [|p r]]; discriminate.
+        * discriminate.
+        * assert (Hsub : forall x, In x (walk (Node cs')) -> In x (walk (Node cs))).
+          { intros x Hx. apply (walk_split cs i _ _ Hs Hg). left. exact Hx. }
+          destruct (IH (S d) k nv cs' Hwf' Hix') as [Hnv [g [w [Hin [Hne He]]]]].
+          -- apply (sub_shard_deeper (S d) cs' k Hwf'). cbn [big] in Hbig. lia.
+          -- intros g w Hin. eapply firstn_S_nth; [apply (Hpre g w (Hsub _ Hin))|exact (Hslot g w Hin)|exact Hn].
+          -- exact Esw.
+          -- split; [exact Hnv|]. exists g, w. split; [apply Hsub; exact Hin|]. auto.
+      + destruct nv; discriminate.
+  Qed.
+
+  Lemma find_not_toodeep : forall ix d k cs, wf d (Node cs) -> skipn d (hidx k) = ix ->
+    (d < llen (hidx k))%nat -> find ix k cs <> FTooDeep.
+  Proof.
+    induction ix as [|i ix IH]; intros d k cs Hwf Hix Hd.
+    - exfalso. exact (skipn_lt_nonnil d (hidx k) Hd Hix).
+    - pose proof (skipn_cons_nth _ _ _ _ Hix) as [Hn Hix'].
+      pose proof (proj1 (wf_node hidx d cs) Hwf) as [Hs Hall].
+      cbn [find]. destruct (cget i cs) as [[g w0|cs']|] eqn:Hg; [destruct (name_eqb g k); discriminate| |discriminate].
+      pose proof (Hall i _ (cget_some_in _ _ _ Hg)) as [_ [Hbig Hwf']].
+      apply (IH (S d) k cs' Hwf' Hix'). apply (sub_shard_deeper (S d) cs' k Hwf'). cbn [big] in Hbig. lia.
+  Qed.
+
+  Lemma root_depth : forall k, (0 < llen (hidx k))%nat.
+  Proof. intros k. pose proof (Hpos k). destruct (hidx k); [congruence|cbn; lia]. Qed.
+
+  (* ---------------- the relation between a directory and the map ---------------- *)
+  Inductive Rel : dir -> fmap -> Prop :=
+  | RelB : forall l m, keys_nodup l -> same l m -> Rel (DBasic l) m
+  | RelH : forall cs tl m, wf 0 (Node cs) -> tl = count cs -> same (walk (Node cs)) m -> Rel (DHamt cs tl) m.
+
+  Lemma walk_nodup : forall cs, wf 0 (Node cs) -> keys_nodup (walk (Node cs)).
+  Proof. intros cs H. exact (wf_nodup hidx _ _ H). Qed.
+
+  Lemma count_len : forall cs m, wf 0 (Node cs) -> keys_nodup m -> same (walk (Node cs)) m ->
+    count cs = Z.of_nat (llen m).
+  Proof. intros cs m Hwf Hm Hs. unfold count. f_equal. apply same_length; [apply walk_nodup; exact Hwf|exact Hm|exact Hs]. Qed.
+
+  (** HAMT add / remove against the map *)
+  Lemma hamt_add_ok : forall cs k v m, wf 0 (Node cs) -> keys_nodup m -> same (walk (Node cs)) m ->
+    match hamt_add hidx k v cs (count cs) with
+    | inl (cs', tl') => wf 0 (Node cs') /\ tl' = count cs' /\ same (walk (Node cs')) (mput k v m)
+    | inr e => e = ETooDeep /\ exists g, In g (map fst m) /\ g <> k /\ hidx g = hidx k
+    end.
+  Proof.
+    intros cs k v m Hwf Hm Hs. unfold hamt_add.
+    pose proof (swap_spec hidx (hidx k) 0 k (Some v) cs Hwf eq_refl) as Hsp.
+    destruct (swap hidx (hidx k) 0 k (Some v) cs) as [old cs'| |] eqn:Esw.
+    - cbn [swap_post] in Hsp. destruct Hsp as [Hwf' [Hold [Hmem [Hsz _]]]].
+      split; [exact Hwf'|]. split.
+      + unfold count. fold (size (Node cs')). fold (size (Node cs)). destruct old; cbn [flag] in Hsz; lia.
+      + intros [a b]. rewrite Hmem, mput_in. split.
+        * intros [[-> H]|[Hne H]]; [inversion H; left; auto|right; split; [exact Hne|apply Hs; exact H]].
+        * intros [[-> ->]|[Hne H]]; [left; auto|right; split; [exact Hne|apply Hs; exact H]].
+    - cbn [swap_post] in Hsp. destruct Hsp as [Hsp _]. discriminate.
+    - split; [reflexivity|].
+      destruct (swap_toodeep (hidx k) 0 k (Some v) cs Hwf eq_refl (root_depth k) ltac:(intros; reflexivity) Esw)
+        as [_ [g [w [Hin [Hne He]]]]].
+      exists g. split; [|split; assumption]. eapply in_keys_l. apply Hs. exact Hin.
+  Qed.
+
+  Lemma hamt_remove_ok : forall cs k m, wf 0 (Node cs) -> keys_nodup m -> same (walk (Node cs)) m ->
+    match hamt_remove hidx k cs (count cs) with
+    | inl (cs', tl') => wf 0 (Node cs') /\ tl' = count cs' /\ same (walk (Node cs')) (mdel k m) /\ mget k m <> None
+    | inr e => e = ENotExist /\ mget k m = None
+    end.
+  Proof.
+    intros cs k m Hwf Hm Hs. unfold hamt_remove.
+    pose proof (swap_spec hidx (hidx k) 0 k None cs Hwf eq_refl) as Hsp.
+    destruct (swap hidx (hidx k) 0 k None cs) as [old cs'| |] eqn:Esw.
+    - cbn [swap_post] in Hsp. destruct Hsp as [Hwf' [Hold [Hmem [Hsz Hrm]]]].
+      specialize (Hrm eq_refl). destruct old as [w|]; [|congruence].
+      split; [exact Hwf'|]. split; [|split].
+      + unfold count. fold (size (Node cs')). fold (size (Node cs)). cbn [flag] in Hsz. lia.
+      + intros [a b]. rewrite Hmem. unfold mdel. rewrite in_bdel. split.
+        * intros [[_ H]|[Hne H]]; [discriminate|]. split; [exact Hne|apply Hs; exact H].
+        * intros [Hne H]. right. split; [exact Hne|apply Hs; exact H].
+      + unfold mget. rewrite (bget_in k m w Hm); [discriminate|]. apply Hs. apply Hold. reflexivity.
+    - cbn [swap_post] in Hsp. destruct Hsp as [_ Hnot]. split; [reflexivity|].
+      unfold mget. destruct (bget k m) as [w|] eqn:E; [|reflexivity].
+      exfalso. apply (Hnot w). apply Hs. apply bget_some_in. exact E.
+    - exfalso.
+      destruct (swap_toodeep (hidx k) 0 k None cs Hwf eq_refl (root_depth k) ltac:(intros; reflexivity) Esw) as [H _].
+      congruence.
+  Qed.
+
+  (** BasicDirectory add / remove against the map *)
+  Lemma basic_add_ok : forall ml l k v m, keys_nodup l -> keys_nodup m -> same l m ->
+    match basic_add ml k v l with
+    | inl l' => keys_nodup l' /\ same l' (mput k v m)
+    | inr e => e = EMaxLinks /\ mget k m = None /\ ((0 <? ml) && (ml <? Z.of_nat (llen m) + 1)) = true
+    end.
+  Proof.
+    intros ml l k v m Hl Hm Hs. unfold basic_add.
+    assert (Hdel : keys_nodup (bdel k l ++ [(k, v)])).
+    { apply nodup_snoc; [apply nodup_bdel; exact Hl|]. intros Hin. apply keys_bdel in Hin. destruct Hin. congruence. }
+    assert (Hsame : same (bdel k l ++ [(k, v)]) (mput k v m)).
+    { intros [a b]. rewrite in_app_iff, in_bdel, mput_in. cbn [In]. split.
+      - intros [[Hne H]|[H|[]]]; [right; split; [exact Hne|apply Hs; exact H]|inversion H; left; auto].
+      - intros [[-> ->]|[Hne H]]; [right; left; reflexivity|left; split; [exact Hne|apply Hs; exact H]]. }
+    destruct (bget k l) as [w|] eqn:E.
+    - split; assumption.
+    - assert (Hbd : bdel k l = l).
+      { unfold bdel. apply forallb_filter_id. apply forallb_forall. intros [a b] Hin. cbn [fst].
+        apply negb_true_iff. apply name_eqb_neq. intros ->. apply (bget_none_notin k l E). eapply in_keys_l. exact Hin. }
+      rewrite (same_length l m Hl Hm Hs).
+      destruct ((0 <? ml) && (ml <? Z.of_nat (llen m) + 1)) eqn:Ecap.
+      + split; [reflexivity|]. split; [|reflexivity]. unfold mget. rewrite <- (bget_same k l m Hl Hm Hs). exact E.
+      + rewrite <- Hbd at 1 2. split; assumption.
+  Qed.
+
+  Lemma basic_remove_ok : forall l k m, keys_nodup l -> keys_nodup m -> same l m ->
+    match basic_remove k l with
+    | inl l' => keys_nodup l' /\ same l' (mdel k m) /\ mget k m <> None
+    | inr e => e = ENotExist /\ mget k m = None
+    end.
+  Proof.
+    intros l k m Hl Hm Hs. unfold basic_remove, mget. rewrite <- (bget_same k l m Hl Hm Hs).
+    destruct (bget k l) as [w|] eqn:E.
+    - split; [apply nodup_bdel; exact Hl|]. split; [|discriminate].
+      intros [a b]. unfold mdel. rewrite !in_bdel. split; intros [H1 H2]; (split; [exact H1|apply Hs; exact H2]).
+    - split; reflexivity.
+  Qed.
+
+  (** conversions *)
+  Lemma to_hamt_ok : forall r cs, wf 0 (Node cs) -> NoDup (map fst (walk (Node cs)) ++ map fst r) ->
+    match to_hamt hidx r cs (count cs) with
+    | inl (cs', tl') => wf 0 (Node cs') /\ tl' = count cs' /\
+                        (forall x, In x (walk (Node cs')) <-> In x (walk (Node cs)) \/ In x r)
+    | inr e => e = ETooDeep /\
+               has_collision hidx (map fst (walk (Node cs)) ++ map fst r) = true
+    end.
+  Proof.
+    induction r as [|[k v] r IH]; intros cs Hwf Hnd.
+    - cbn [to_hamt]. split; [exact Hwf|]. split; [reflexivity|]. intros x. cbn. tauto.
+    - cbn [to_hamt].
+      pose proof (hamt_add_ok cs k v (walk (Node cs)) Hwf (walk_nodup cs Hwf) ltac:(intros x; reflexivity)) as Ha.
+      unfold hamt_add in Ha.
+      assert (Hk : ~ In k (map fst (walk (Node cs)))).
+      { intros Hin. cbn [map fst] in Hnd. apply NoDup_remove_2 in Hnd. apply Hnd. apply in_app_iff. left. exact Hin. }
+      destruct (swap hidx (hidx k) 0 k (Some v) cs) as [old cs'| |] eqn:Esw.
+      + destruct Ha as [Hwf' [Htl Hsame]].
+        pose proof (swap_spec hidx (hidx k) 0 k (Some v) cs Hwf eq_refl) as Hsp. rewrite Esw in Hsp.
+        cbn [swap_post] in Hsp. destruct Hsp as [_ [Hold _]].
+        assert (old = None).
+        { destruct old as [w|]; [|reflexivity]. exfalso. apply Hk. eapply in_keys_l. apply Hold. reflexivity. }
+        subst old. replace (count cs + 1) with (count cs') by lia.
+        assert (Hmem : forall x, In x (walk (Node cs')) <-> x = (k, v) \/ In x (walk (Node cs))).
+        { intros [a b]. rewrite (Hsame (a, b)), mput_in. split.
+          - intros [[-> ->]|[_ H]]; auto.
+          - intros [H|H]; [inversion H; left; auto|]. right. split; [|exact H]. intros ->. apply Hk. eapply in_keys_l. exact H. }
+        assert (Hnd' : NoDup (map fst (walk (Node cs')) ++ map fst r)).
+        { cbn [map fst] in Hnd. eapply Permutation_NoDup; [|exact Hnd].
+          etransitivity; [symmetry; apply Permutation_middle|]. apply Permutation_app_tail.
+          apply NoDup_Permutation.
+          - constructor; [exact Hk|apply (walk_nodup cs Hwf)].
+          - apply (walk_nodup cs' Hwf').
+          - intros a. cbn [In]. rewrite !in_map_iff. split.
+            + intros [<-|[[x y] [E H]]]; [exists (k, v); split; [reflexivity|apply Hmem; left; reflexivity]|].
+              exists (x, y). split; [exact E|apply Hmem; right; exact H].
+            + intros [[x y] [E H]]. apply Hmem in H. destruct H as [H|H]; [inversion H; subst; left; reflexivity|].
+              right. exists (x, y). split; assumption. }
+        specialize (IH cs' Hwf' Hnd').
+        destruct (to_hamt hidx r cs' (count cs')) as [[cs2 tl2]|e].
+        * destruct IH as [H1 [H2 H3]]. split; [exact H1|]. split; [exact H2|].
+          intros x. rewrite H3, Hmem. cbn [In]. intuition.
+        * destruct IH as [H1 H2]. split; [exact H1|].
+          eapply has_collision_incl; [exact H2|].
+          intros a. rewrite !in_app_iff. cbn [map fst In]. intros [H|H]; [|auto].
+          apply in_map_iff in H. destruct H as [[x y] [E H]]. cbn in E. subst x. apply Hmem in H.
+          destruct H as [H|H]; [inversion H; auto|]. left. eapply in_keys_l. exact H.
+      + destruct Ha as [Ha _]. discriminate.
+      + destruct Ha as [_ [g [Hg [Hne He]]]]. split; [reflexivity|].
+        eapply (has_collision_intro hidx _ k g); [| |congruence|congruence].
+        * apply in_app_iff. right. left. reflexivity.
+        * apply in_app_iff. left. exact Hg.
+  Qed.
+End DirProofs.
